@@ -1906,7 +1906,11 @@ theorem continueSMP_wf (K : Crypto) (secret : Bytes) (s : MState) (h : SmpWF s.c
         | (simp_all [SmpWF]; done)
         | skip
   · simp only [wp_bind, wp_modc, wp_throw]
-    simp [SmpWF]
+    -- repaired code: the state is kept (a nil state becomes EXPECT1)
+    unfold SmpWF at h ⊢
+    cases hst : s.conv.smp.state with
+    | none => simp
+    | some st => simpa [hst] using h
 
 theorem provideAuthenticationSecret_wf (K : Crypto) (secret : Bytes) (s : MState) (h : SmpWF s.conv) :
     wp (provideAuthenticationSecret K secret) (fun _ s' => SmpWF s'.conv) (fun _ => True) s := by
@@ -2462,7 +2466,12 @@ theorem continueSMP_num (K : Crypto) (hK : GroupOK K) (secret : Bytes) (s : MSta
            simp only [*])
         | skip
   · simp only [wp_bind, wp_modc, wp_throw]
-    exact ⟨hn, by simp [SmpWaitWF]⟩
+    refine ⟨hn, ?_⟩
+    -- repaired code: the state is kept (a nil state becomes EXPECT1)
+    unfold SmpWaitWF at hw ⊢
+    cases hst : s.conv.smp.state with
+    | none => simp
+    | some st => simpa [hst] using hw
 
 
 /-- `SmpNumWF ∧ SmpWaitWF` -/
